@@ -23,7 +23,7 @@ def title_of(m):
     return t[:120].replace('|', '/')
 
 
-rows = {1: [], 2: [], 3: []}
+rows = {1: [], 2: [], 3: [], 4: []}
 for d in sorted(glob.glob(os.path.join(V, 'seeded', 'C*-*'))):
     mp = os.path.join(d, 'meta.json')
     if not os.path.exists(mp):
@@ -34,7 +34,7 @@ for d in sorted(glob.glob(os.path.join(V, 'seeded', 'C*-*'))):
     if not r:
         continue
     n = int(sid.split('-')[1])
-    rnd = 1 if n <= 2 else 2 if n <= 4 else 3
+    rnd = 1 if n <= 2 else 2 if n <= 4 else 3 if n <= 6 else 4
     ownp = m['property']
     verdict = {'V': 'VIOLATION', 'U': 'undecided', 'M': '**missed**'}[own(r)]
     first = ''
@@ -52,31 +52,32 @@ tot = collections.Counter(own(v) for v in seeded.values())
 per = {}
 for k, v in seeded.items():
     n = int(k.split('-')[1])
-    rnd = 1 if n <= 2 else 2 if n <= 4 else 3
+    rnd = 1 if n <= 2 else 2 if n <= 4 else 3 if n <= 6 else 4
     per.setdefault(rnd, collections.Counter())[own(v)] += 1
 HDR = '| change | what it does (author\'s heading) | own property | first failing obligation / reason for indecision | also reported under |\n|---|---|---|---|---|\n'
 out = []
 out.append('## 13. Seeded changes: what catches what\n')
-out.append("""%d property-breaking changes were written by fresh sub-agents in three rounds (two per claimed property and round; C19 once,
-after it was claimed). Each sub-agent saw only the text of one property, a scratch worktree of `/repo` under `/tmp`, and - from the
+out.append("""%d property-breaking changes were written by fresh sub-agents in four rounds (two per claimed property in rounds 1-3; C19 once,
+after it was claimed; round 4 for eight properties, asked for SMALL slips - a changed operator, a wrong variable, an off-by-one). Each sub-agent saw only the text of one property, a scratch worktree of `/repo` under `/tmp`, and - from the
 second round on - one-line descriptions of the changes already made for that property, so as not to repeat them; nothing from
 `/verif`. Each change was confirmed here (`tools/validate_seeds.py`, scratch worktree outside `/repo` and `/verif`): the patch
 applies to `/repo` HEAD, the 120-test suite still passes, the author's demonstration passes on the unchanged tree and fails with the
 change (`seeded/validation_summary*.json`; per change `seeded/<id>/{patch.diff,demo.rs,meta.json}`; C17-5/6 by hand because their
 demonstrations need `--cfg sv_parser_verif`). Then EVERY claimed check was run against EVERY change (`tools/run_checks_on_seeds.py`,
 `VERIF_REPO`/`VERIF_OUT` pointing outside `/repo` and `/verif`); nothing is ever committed to `/repo`. `seeded/RESULTS.md` /
-`seeded/results.json` hold the full matrix of the last run. Ids: `Cxx-1/2` first round, `Cxx-3/4` second, `Cxx-5/6` third.
+`seeded/results.json` hold the full matrix of the last run. Ids: `Cxx-1/2` first round, `Cxx-3/4` second, `Cxx-5/6` third, `Cxx-7/8` fourth.
 
 Result of the last run (own property of each change): **%d VIOLATION, %d undecided (exit 2), %d missed** of %d
-(round 1: %s; round 2: %s; round 3: %s). Undecided always means that the changed code left what the verifier front end or an
+(round 1: %s; round 2: %s; round 3: %s; round 4: %s). Undecided always means that the changed code left what the verifier front end or an
 annotation anchor accepts (a new helper with `?`, iterator chains with closures, a new struct, a rewritten `quote!` template, a
 changed signature); it is never an alarm. The later rounds are harder on purpose (the obvious sites were taken), which is what
 the falling share of violations shows.
 """ % (len(seeded), tot['V'], tot['U'], tot['M'], len(seeded),
        ', '.join('%d %s' % (per[1][k], n) for k, n in (('V', 'V'), ('U', 'U'), ('M', 'missed'))),
        ', '.join('%d %s' % (per[2][k], n) for k, n in (('V', 'V'), ('U', 'U'), ('M', 'missed'))),
-       ', '.join('%d %s' % (per[3][k], n) for k, n in (('V', 'V'), ('U', 'U'), ('M', 'missed')))))
-for rnd in (1, 2, 3):
+       ', '.join('%d %s' % (per[3][k], n) for k, n in (('V', 'V'), ('U', 'U'), ('M', 'missed'))),
+       ', '.join('%d %s' % (per.get(4, collections.Counter())[k], n) for k, n in (('V', 'V'), ('U', 'U'), ('M', 'missed')))))
+for rnd in (1, 2, 3, 4):
     out.append('\n### 13.%d Round %d\n\n' % (rnd, rnd) + HDR + '\n'.join(rows[rnd]) + '\n')
 alarms = {k: v['caught_by'] for k, v in ben.items() if v['caught_by']}
 und = {k: v['undecided_in'] for k, v in ben.items() if v['undecided_in']}
@@ -110,6 +111,13 @@ no nom streaming parser (C15-5), string tests in `is_predefined_text_macro` (C04
 iterator adapters + R-closurepat (C05-5), the include arm's `ignore_include` obligation and one call-site copy per property
 set (C10-3 had become a miss through masking), per-branch knowledge in the lexer evaluation (C13-5), frozen stretches of
 `preprocess_str` (C06-5 was a miss: now undecided), the R-tls premise (C08-6), C01 clause on `parse_*_pp` (C01-6 was a miss).
+Round 4 (small slips; four of sixteen were first MISSED, i.e. exit 0 on a tree that breaks the property): the define table handed
+to and taken back from an included file is a premise of C04 as well (C04-7 was only reported under C10/C11), `into_locate`
+is part of C06 (C06-7 was only reported under C01), gvc.shadow - an alternative of an ordered choice whose literal has an earlier
+literal of the same `alt` as a prefix can never be taken (C11-7: `tag("\\\r")` before `tag("\\\r\n")` in `macro_text`), and
+the remaining input must be threaded through every step of a production (C15-8: `let (_, b) = ..(s)?` in
+`source_text_incomplete` parses the same text twice; now a failure of gvc.top for C15 and of the faithfulness lemma for C01);
+`first()` next to `last()` on the version stack (C13-7).
 Benign round: two false alarms corrected, R-inline, tolerant panic inventory (section 10.5).
 Still undecided and why: helpers with `?` or a changed signature (C01-6, C15-6, C03-5), iterator chains (`rev().find_map`,
 `map().collect()`, `retain`: C03-6, C20-5, C11-5), new data structures or API of std's B-tree (C08-6, C03-4), a new arm with a new
